@@ -256,6 +256,8 @@ package policy
 //@ extfunc github.com/failsafe-go/failsafe-go/policy.ExecutionInternal.CopyWithResult
 //@   modifies nothing
 //@   ensures result_0 != nil && userCopy(result_0)
+//@   ensures [C17.copy.has_the_type_of_its_original] typeis(result_0, *failsafe.execution) == typeis(self, *failsafe.execution)
+//@   ensures [C17.copy.is_a_snapshot_of_this_execution] typeis(self, *failsafe.execution) && typeis(result_0, *failsafe.execution) ==> asref(result_0, *failsafe.execution).isHedge == asref(self, *failsafe.execution).isHedge && asref(result_0, *failsafe.execution).attempts == asref(self, *failsafe.execution).attempts && asref(result_0, *failsafe.execution).hedges == asref(self, *failsafe.execution).hedges && (result != nil ==> asref(result_0, *failsafe.execution).lastResult == result.Result && asref(result_0, *failsafe.execution).lastError == result.Error)
 // Condition slices are only appended to while building; their elements never change afterwards.
 //@ frozen elem:cell:func(result R, err error) bool
 //@ frozen elem:cell:func(A, B) bool
